@@ -310,3 +310,47 @@ pub fn run_case(idents: &[Ident], idx: u64, rng: &mut Rng, _thorough: bool, hist
         CaseResult { coq: Some(coq), failures, nontrivial, canon: h, steps: steps.len(), sample }
     })
 }
+
+/// One-off experiment (not part of any check): `max_nodes_response` large enough for an answer of
+/// 256 packets. The table is filled through the raw table API with arbitrary keys (as in kb.rs),
+/// because 1280 node ids at 81 chosen distances cannot be produced from real keys.
+/// Prints the largest datagram; see C14_packet_total_256_too_long.
+pub fn margin_experiment(idents: &[Ident]) {
+    let rt = runtime();
+    rt.block_on(async {
+        let mut rng = Rng::new(77);
+        let mut recs = Recs::new(idents);
+        let li = recs.get(&RecSpec { ident: 0, seq: 1, udp4: Some(([10, 0, 0, 1], 9000)), udp6: None, size: 0 });
+        let mut cb = base_config(0);
+        cb.max_nodes_response(5000);
+        let mut b = Svc::new(recs.list[li].enr.clone(), idents[0].key(), cb.build()).await;
+        let local_id = idents[0].id;
+        let mut n = 0usize;
+        for d in (170..=256u64).rev() {
+            for j in 0..16usize {
+                let key = id_at(&mut rng, &local_id, d);
+                let ri = recs.get(&RecSpec { ident: 1 + (n % 600), seq: 1 + (n / 600) as u64, udp4: Some(([10, 1, (j % 200) as u8, (n % 250) as u8 + 1], 30303)), udp6: None, size: 235 });
+                let _ = b.s.kbuckets.write().insert_or_update(&discv5::Key::from(NodeId::new(&key)), recs.list[ri].enr.clone(), status(true, false));
+                n += 1;
+            }
+        }
+        let ds: Vec<u64> = (170..=256u64).collect();
+        let addr = NodeAddress { socket_addr: sock4([192, 168, 1, 7], 30303), node_id: idents[5].node_id() };
+        let id = vec![0xc8, 1, 2, 3, 4, 5, 6, 7];
+        b.inject(HandlerOut::Request(addr.clone(), Box::new(Request { id: RequestId(id), body: RequestBody::FindNode { distances: ds } }))).await;
+        let msgs = b.drain();
+        let served = collect_served(&msgs, &addr, &local_id, &mut rng);
+        let maxw = served.packets.iter().map(|p| p.3).max().unwrap_or(0);
+        let total = served.packets.first().map(|p| p.1).unwrap_or(0);
+        let sizes: BTreeSet<usize> = recs.list.iter().map(|r| r.size).collect();
+        println!(
+            "c14margin: {} table entries of sizes {:?}, answer of {} packets (total field {}), largest datagram {} bytes (MAX_PACKET_SIZE {})",
+            n,
+            sizes,
+            served.packets.len(),
+            total,
+            maxw,
+            constants().0
+        );
+    });
+}
